@@ -11,8 +11,8 @@ class S(D.Spec):
     monitor_fn = ("mon_c18", "mon_c18")
     corpus_file = os.path.join(C.CORPUS, "C18.cases")
     rule = ("EXHAUSTIVE and regenerated on every run: 14 property-carrying locations (CONNECT, will, CONNACK, PUBLISH, PUBACK, PUBREC, "
-            "PUBREL, PUBCOMP, SUBSCRIBE, SUBACK, UNSUBSCRIBE, UNSUBACK, DISCONNECT, AUTH) x 27 property identifiers x {once, twice} = 756 "
-            "cells, each through the BUILDER path (library constructors) and the PARSER path (packet bytes encoded by hand in the harness, "
+            "PUBREL, PUBCOMP, SUBSCRIBE, SUBACK, UNSUBSCRIBE, UNSUBACK, DISCONNECT, AUTH) x 27 property identifiers x {once, twice}, each location on TWO base packets (minimal; and other flags / a failure reason code / "
+            "several entries / AUTH with Continue-authentication, locations 101..116) = 1512 cells, each through the BUILDER path (library constructors) and the PARSER path (packet bytes encoded by hand in the harness, "
             "independently of the library's serialisation); boundary values {0,1,2,..,max} of every numeric property through constructor and "
             "parser; all 229 unknown identifier bytes. The three tables are written to Generated/ObservedProps.v and compared with the "
             "specification table by Coq theorems (GenChecks/C18.v). PLUS seeded random property lists of 0-6 entries per location (biased to "
@@ -49,7 +49,7 @@ class S(D.Spec):
         t = line.split()
         n = int(t[2])
         return ("property: C18\nkind: %s\nverdict: %s  (906 1: builder and parser disagree; 906 2 / 903 / 904: builder or parser differs from the specification rule)\n"
-                "location (1 CONNECT 2 CONNACK 3 PUBLISH 4 PUBACK 5 PUBREC 6 PUBREL 7 PUBCOMP 8 SUBSCRIBE 9 SUBACK 10 UNSUBSCRIBE 11 UNSUBACK 14 DISCONNECT 15 AUTH 16 will): %s\n"
+                "location (1 CONNECT 2 CONNACK 3 PUBLISH 4 PUBACK 5 PUBREC 6 PUBREL 7 PUBCOMP 8 SUBSCRIBE 9 SUBACK 10 UNSUBSCRIBE 11 UNSUBACK 14 DISCONNECT 15 AUTH 16 will; +100 = the second base packet of that location): %s\n"
                 "property identifiers, in order: %s\nbuilder accepts: %s\nparser accepts: %s\ncase-line: %s\nreplay: ./check C18 --replay <this file>\n"
                 % (kind, verdict, t[1], " ".join(t[3:3 + n]), t[3 + n], t[4 + n], line))
 
